@@ -100,6 +100,7 @@ pub fn cases(tier: Tier) -> Vec<GCase> {
         });
         let mut c = GCase::new(g, if member { Expect::Sat(vec![]) } else { Expect::Unsat }, if member { "torsion-free/member" } else { "torsion-free/non-member" });
         c.bound2 = tier == Tier::Thorough && !member;
+        c.rewire = member;
         out.push(c);
         // prover-chosen auxiliary point
         for (qn, q) in aux_points(&p, tier) {
